@@ -433,6 +433,8 @@ var baseAssumptions = []string{
 	"append is modelled as always reallocating (no observable sharing of spare capacity)",
 	"floating point is not modelled (opaque)",
 	"package-level protocol constants (Field*, Tran* byte arrays) are not mutated after initialisation",
+	"library calls on the no-effect list (stdmodels.go: logging, fmt, strings, path, time, regexp, os.* and FileStore file operations, FileInfo/DirEntry getters, ...) write no memory visible to the caller; the internal state of library readers/writers is not modelled except through the stream and cursor models",
+	"mode A only: callees on the opaque list (plugin_priv.go: constructors and read-only helpers such as NewField, NewTransaction, GetField, ReadPath, NewFileWrapper) return fresh values and leave existing memory unchanged; general (untagged) preconditions of callees are assumed at handler call sites and listed in the abstraction report",
 }
 
 // conformanceFor: which assumed library contracts a property's proof uses
